@@ -60,6 +60,31 @@ func TestVerif_C21Builders(t *testing.T) {
 			x.Truncations(rng, "wrong")
 		}
 	})
+	// phase 2: identical credential pairs presented concurrently, bcrypt-backed configurations
+	r.Cases("conc", r.N(4, 40), func(i int, rng *verifkit.Rand) {
+		if aborted.Load() {
+			return
+		}
+		users, hashes := c21kit.GenHashedUsers(rng, i)
+		auth := config.SOCKS5AuthConfig{Enabled: true}
+		for _, u := range users {
+			auth.Users = append(auth.Users, config.SOCKS5UserConfig{Username: u.Name, PasswordHash: hashes[u.Name]})
+		}
+		setup := c21kit.Setup{Class: "usable-user", Enforced: true, Users: users, SlowUnknown: true, Desc: auth}
+		auths, store := c21Build(auth)
+		tgt, stop, err := c21kit.StartRecorded(auths, store)
+		if err != nil {
+			r.Inconclusive("start socks5.Server: " + err.Error())
+			aborted.Store(true)
+			return
+		}
+		defer stop()
+		x := &c21kit.Runner{R: r, Phase: "conc", Case: i, S: setup, T: tgt, Aborted: &aborted}
+		x.ConcurrentRounds(rng, r.N(9, 40))
+	})
+	r.Require("concurrent_rounds", 24)
+	r.Require("concurrent_rounds_overlapped", 16)
+	r.Require("concurrent_wrong_pair_refused", 100)
 	r.Require("transcripts", 1500)
 	r.Require("transcripts_ws", 300)
 	r.Require("class_no-usable-user", 300)
